@@ -77,6 +77,9 @@ type ExecD struct {
 	HoldTask   int            `json:"hold_task,omitempty"` // C11: task id+1 held until predicate WatchPred was evaluated
 	WatchPred  int            `json:"watch_pred,omitempty"`
 	CancelOrd  int            `json:"cancel_ord,omitempty"`
+	// CtxKind 1: the directive gets a user-defined context.Context type
+	// (engine.UserCtx) instead of a standard cancel context.
+	CtxKind int `json:"ctx_kind,omitempty"`
 	// Nest: the body of task id runs another directive (on the worker
 	// goroutine, with a context derived from the one the task received)
 	// before it ends.
@@ -233,6 +236,8 @@ type execRun struct {
 	nem     [3]int
 	states  []cff.SchedulerState
 	nstates int
+	// statesAfterRet: reports received after the directive had returned nil
+	statesAfterRet int
 	inits   [3][64]initRec // TaskInit calls per emitter (name, source line)
 	ninits  [3]int
 
@@ -258,6 +263,7 @@ type runner struct {
 	d      *Desc
 	execs  []*execRun
 	shared cff.Emitter // a three-member stack used by every execution that asks for it
+	slice  []cff.Emitter
 }
 
 //go:norace
@@ -611,6 +617,76 @@ func (h *hh) Emitter(k int) cff.Emitter { return &recEmitter{x: h.x, k: k} }
 
 func (h *hh) SharedEmitter() cff.Emitter { return h.x.r.shared }
 
+func (h *hh) EmitterSlice() []cff.Emitter { return h.x.r.slice }
+
+// routeEmitter is an emitter value shared by every execution of a run; it
+// files each event under the execution whose context the event carries.
+type routeEmitter struct {
+	r *runner
+	k int
+}
+
+func (e *routeEmitter) of(ctx context.Context) *recEmitter {
+	tok, _ := ctx.Value(ctxKey{}).(*int)
+	for _, x := range e.r.execs {
+		if x.token == tok {
+			return &recEmitter{x: x, k: e.k}
+		}
+	}
+	return nil
+}
+
+type routeTask struct {
+	e    *routeEmitter
+	name string
+}
+
+func (e *routeEmitter) TaskInit(t *cff.TaskInfo, _ *cff.DirectiveInfo) cff.TaskEmitter {
+	return &routeTask{e, t.Name}
+}
+func (e *routeEmitter) FlowInit(*cff.FlowInfo) cff.FlowEmitter                { return e }
+func (e *routeEmitter) ParallelInit(*cff.ParallelInfo) cff.ParallelEmitter    { return (*routePar)(e) }
+func (e *routeEmitter) SchedulerInit(*cff.SchedulerInfo) cff.SchedulerEmitter { return &sinkEmitter{} }
+func (e *routeEmitter) ev(ctx context.Context, kind int, name string, err error, pv any) {
+	if r := e.of(ctx); r != nil {
+		r.rec(kind, name, err, pv)
+	}
+}
+func (e *routeEmitter) FlowSuccess(ctx context.Context)          { e.ev(ctx, EmFlowSuccess, "", nil, nil) }
+func (e *routeEmitter) FlowError(ctx context.Context, err error) { e.ev(ctx, EmFlowError, "", err, nil) }
+func (e *routeEmitter) FlowDone(ctx context.Context, _ time.Duration) {
+	e.ev(ctx, EmFlowDone, "", nil, nil)
+}
+
+type routePar routeEmitter
+
+func (e *routePar) ParallelSuccess(ctx context.Context) {
+	(*routeEmitter)(e).ev(ctx, EmFlowSuccess, "", nil, nil)
+}
+func (e *routePar) ParallelError(ctx context.Context, err error) {
+	(*routeEmitter)(e).ev(ctx, EmFlowError, "", err, nil)
+}
+func (e *routePar) ParallelDone(ctx context.Context, _ time.Duration) {
+	(*routeEmitter)(e).ev(ctx, EmFlowDone, "", nil, nil)
+}
+func (t *routeTask) TaskSuccess(ctx context.Context) { t.e.ev(ctx, EmTaskSuccess, t.name, nil, nil) }
+func (t *routeTask) TaskError(ctx context.Context, err error) {
+	t.e.ev(ctx, EmTaskError, t.name, err, nil)
+}
+func (t *routeTask) TaskErrorRecovered(ctx context.Context, err error) {
+	t.e.ev(ctx, EmTaskErrorRecovered, t.name, err, nil)
+}
+func (t *routeTask) TaskSkipped(ctx context.Context, err error) {
+	t.e.ev(ctx, EmTaskSkipped, t.name, err, nil)
+}
+func (t *routeTask) TaskPanic(ctx context.Context, pv any) { t.e.ev(ctx, EmTaskPanic, t.name, nil, pv) }
+func (t *routeTask) TaskPanicRecovered(ctx context.Context, pv any) {
+	t.e.ev(ctx, EmTaskPanicRecovered, t.name, nil, pv)
+}
+func (t *routeTask) TaskDone(ctx context.Context, _ time.Duration) {
+	t.e.ev(ctx, EmTaskDone, t.name, nil, nil)
+}
+
 // sinkEmitter stands for a process-wide emitter: it is shared by all
 // executions of a run and records nothing.
 type sinkEmitter struct{}
@@ -716,6 +792,9 @@ func (e *recSched) EmitScheduler(s cff.SchedulerState) {
 		x.states[x.nstates] = s
 		x.nstates++
 	}
+	if e.k == 0 && x.returned && x.err == nil && x.ctxErrAtRet == nil {
+		x.statesAfterRet++
+	}
 }
 
 func (t *recTask) TaskSuccess(context.Context) { t.e.rec(EmTaskSuccess, t.name, nil, nil) }
@@ -750,6 +829,11 @@ func (r *runner) runExec(x *execRun, parent context.Context) {
 	x.setStarted(x.log(EvCall, -1, 0, nil, 0, 0))
 	base := context.WithValue(parent, ctxKey{}, x.token)
 	ctx, cancel := context.WithCancel(base)
+	if d.CtxKind == 1 && d.CancelMode != CancelDeadline && x.parent == nil && len(d.Nest) == 0 {
+		uc := engine.NewUserCtx(ctx) // ctx: live standard parent, released at the end
+		stdCancel := cancel
+		ctx, cancel = context.WithValue(uc, ctxKey{}, x.token), func() { uc.Cancel(); stdCancel() }
+	}
 	if d.CancelMode == CancelDeadline {
 		dl := time.Duration(d.DelaySteps)*engine.Q + time.Duration(2*(d.DelaySteps%1000)+1)
 		ctx, cancel = context.WithTimeout(base, dl)
@@ -830,6 +914,7 @@ type Result struct {
 	StuckDesc     []string
 	Trace         []string
 	InvViol       []Violation
+	OracleProbes  map[string]int
 }
 
 // Exec performs one simulated run.
@@ -837,6 +922,7 @@ func Exec(t *testing.T, d *Desc, replay, keepTrace bool, states map[uint64]struc
 	sim := &engine.Sim{Budget: d.Budget, FairAfter: d.FairAfter, KeepTrace: keepTrace, States: states}
 	res := &Result{D: d, Sim: sim}
 	r := &runner{sim: sim, d: d, shared: cff.EmitterStack(&sinkEmitter{}, &sinkEmitter{}, &sinkEmitter{})}
+	r.slice = []cff.Emitter{cff.NopEmitter(), &routeEmitter{r, 0}, &routeEmitter{r, 1}}
 	emitters := false
 	newExec := func(ed *ExecD, parent *execRun) *execRun {
 		pr := programs[ed.Prog]
@@ -893,7 +979,7 @@ func Exec(t *testing.T, d *Desc, replay, keepTrace bool, states map[uint64]struc
 	if d.Prop == "C03" {
 		sim.CountEvery = 16
 	}
-	if d.Prop == "C03scale" {
+	if d.Prop == "C03scale" || d.Prop == "C10scale" || d.Prop == "C10scale8" {
 		sim.CountEvery = 1024
 	}
 	if replay {
